@@ -974,8 +974,13 @@ def run_ep(env, cfg, case):
     P = ep_point(c, d, case["pt"])
     pack, pz, mode = case["pack"], case["poison"], case["mode"]
     fillb = (pz ^ 0x3C) | 1
-    stale = ecctx.enc_point(c, ecctx.small_multiple(c, 5))
-    lab = ["ep:%s" % mode, "ep:cid=%d" % c.cid, "ep:api=%s" % pfx, "ep:pt=%s" % (case["pt"]["kind"] if P is not None else "inf")]
+    # what the destination object holds before a decoder writes it: a finite affine point, the identity in either
+    # encoding, or a projective point (a decoder that leaves part of a stale object in place must not pass)
+    stale = [ecctx.enc_point(c, ecctx.small_multiple(c, 5)), ecctx.enc_point(c, None),
+             ecctx.enc_point(c, None, "projc" if c.EP_ADD == c.PROJC else "jacob", 7, 1),
+             ecctx.enc_point(c, ecctx.small_multiple(c, 3), "projc" if c.EP_ADD == c.PROJC else "jacob", 11)][
+                 (case["poison"] >> 2) % 4 if c.EP_ADD != c.BASIC else (case["poison"] >> 2) % 2]
+    lab = ["ep:%s" % mode, "ep:stale-dest=%d" % ((case["poison"] >> 2) % 4), "ep:cid=%d" % c.cid, "ep:api=%s" % pfx, "ep:pt=%s" % (case["pt"]["kind"] if P is not None else "inf")]
     parity = None
     if mode == "enc":
         rep = case["rep"]
@@ -1232,7 +1237,7 @@ def run_ep2(env, cfg, case):
     P = ep2_point(x, d, case["pt"])
     pack, pz, mode = case["pack"], case["poison"], case["mode"]
     fillb = (pz ^ 0x3C) | 1
-    stale = pcctx.enc_point2(x, pcctx.small_multiple2(x, 5))
+    stale = [pcctx.enc_point2(x, pcctx.small_multiple2(x, 5)), pcctx.enc_point2(x, None)][(case["poison"] >> 2) % 2]
     lab = ["ep2:%s" % mode, "ep2:cid=%d" % x.cid, "ep2:api=%s" % pfx, "ep2:pt=%s" % (case["pt"]["kind"] if P is not None else "inf")]
     if P is not None and P[1][1] == 0:
         lab.append("ep2:y-imaginary-part-zero")
